@@ -26,6 +26,7 @@ class Query(object):
         self.timeout_s = timeout_s
         self.expect = expect
         self.info = info or {}
+        self.pins = None        # reachability twins: candidate input assignments tried first (cheap sat witnesses)
         self.group = group or name
         # filled by discharge()
         self.result = None
@@ -264,13 +265,39 @@ def run_cvc5(smt2, timeout_s, want_model=True):
     return res, model, None
 
 
+def _with_pin(smt2, pin):
+    i = smt2.rfind("(check-sat)")
+    return smt2[:i] + pin + "\n" + smt2[i:]
+
+
 def run_query(q):
     t0 = time.time()
     try:
+        if q.pins and q.expect == "sat":
+            for pin in q.pins:
+                res, model, err = run_z3(_with_pin(q.smt2, pin), 3.0)
+                if res == "sat":
+                    return res, model, None, time.time() - t0
         if q.solver == "z3":
             res, model, err = run_z3(q.smt2, q.timeout_s)
         elif q.solver == "cvc5":
             res, model, err = run_cvc5(q.smt2, q.timeout_s)
+        elif q.solver == "portfolio":
+            # z3 (nlsat) with a short budget, then cvc5 (incremental linearisation / coverings), then z3 again with
+            # the rest of the budget; unsat/sat of either solver is accepted, both are sound
+            short = min(20.0, q.timeout_s / 4.0)
+            res, model, err = run_z3(q.smt2, short)
+            used = "z3"
+            if res == "unknown":
+                res, model, err = run_cvc5(q.smt2, q.timeout_s / 2.0)
+                used = "cvc5"
+                if res == "sat" and model is None:
+                    res = "unknown"
+            if res == "unknown":
+                res, model, err = run_z3(q.smt2, max(1.0, q.timeout_s / 2.0 - short))
+                used = "z3"
+            err = (err or "") if res == "unknown" else None
+            q.decided_by = used
         else:
             raise ValueError(q.solver)
     except Exception as exc:  # noqa
@@ -284,8 +311,9 @@ def _worker(task_q, result_q):
         item = task_q.get()
         if item is None:
             return
-        idx, name, smt2, solver, timeout_s = item
-        q = Query(name, smt2, solver, timeout_s)
+        idx, name, smt2, solver, timeout_s, pins, expect = item
+        q = Query(name, smt2, solver, timeout_s, expect=expect)
+        q.pins = pins
         result_q.put(("start", idx, os.getpid(), time.time()))
         res = run_query(q)
         result_q.put(("done", idx, os.getpid(), res))
@@ -304,7 +332,7 @@ def discharge(queries, jobs=None, progress=None):
     order = sorted(range(len(queries)), key=lambda i: -queries[i].timeout_s)
     for i in order:
         q = queries[i]
-        task_q.put((i, q.name, q.smt2, q.solver, q.timeout_s))
+        task_q.put((i, q.name, q.smt2, q.solver, q.timeout_s, q.pins, q.expect))
     workers = {}
 
     def spawn():
